@@ -351,7 +351,7 @@ func runC14(p *an.Prog, r *an.Run, tier string) {
 	// nobody else writes the key variable
 	for _, fn := range p.Repo {
 		an.AllInstrs(fn, func(in ssa.Instruction) {
-			if st, ok := in.(*ssa.Store); ok && isGlobalNamed(st.Addr, "ctxService") && fn.Name() != "init" {
+			if st, ok := in.(*ssa.Store); ok && isGlobalNamed(st.Addr, "ctxService") && an.Ident(fn.Name()) != "init" {
 				bad = append(bad, "the context key is reassigned in "+an.FuncName(fn))
 			}
 		})
@@ -367,7 +367,7 @@ func runC14(p *an.Prog, r *an.Run, tier string) {
 	okAtomic := false
 	for _, c := range an.Calls(nextID, false) {
 		if f := an.CallObj(c); f != nil && f.Pkg() != nil && f.Pkg().Path() == "sync/atomic" && strings.HasPrefix(f.Name(), "Add") {
-			if fv := an.FieldOf(c.Common().Args[0]); fv != nil && fv.Name() == "id" {
+			if fv := an.FieldOf(c.Common().Args[0]); fv != nil && an.Ident(fv.Name()) == "id" {
 				if k, ok := an.ConstInt(c.Common().Args[1]); ok && k != 0 {
 					okAtomic = true
 				}
@@ -396,7 +396,7 @@ func runC14(p *an.Prog, r *an.Run, tier string) {
 				}
 			}
 			if u, ok := n.(*ssa.UnOp); ok && u.Op == token.MUL {
-				if fv := an.FieldOf(u.X); fv != nil && fv.Name() == "id" {
+				if fv := an.FieldOf(u.X); fv != nil && an.Ident(fv.Name()) == "id" {
 					bad = append(bad, "the id returned is a plain read of the counter")
 				}
 			}
